@@ -53,7 +53,7 @@ READY_FOOTPRINT = [
 ]
 
 
-@structural("C10/cover/_ready", props=["C10", "C03"],
+@structural("C10/cover/_ready", props=["C10", "C03", "C02"],
             note="every row event in the read footprint of the definition of _ready has a trigger that flags the steps "
                  "whose value can change, filtered only by a no-op test; new rows start flagged; only RECOMPUTE_READY clears")
 def ready_coverage():
